@@ -2,6 +2,7 @@ pub mod core;
 pub mod engine;
 pub mod gen;
 pub mod isolate;
+pub mod jsongen;
 pub mod model;
 pub mod props;
 pub mod script;
